@@ -62,7 +62,7 @@ Hypothesis precommit_justified : forall t e b,
 Hypothesis lock_rule : forall t1 t2 e2 who h r b r',
   signed_at t1 who PRECOMMIT h r (Some b) ->
   nth_error evs t2 = Some e2 -> se_who e2 = who -> se_ty e2 = PREVOTE -> se_h e2 = h -> se_r e2 = r' ->
-  r < r' -> bhash (se_x e2) <> Some (fst b) ->
+  (t1 < t2)%nat -> r < r' -> bhash (se_x e2) <> Some (fst b) ->
   exists r'' y, r < r'' <= r' /\ bhash y <> Some (fst b) /\ QuorumIn (se_seen e2) PREVOTE h r'' y.
 
 (* a decision: +2/3 precommits for the block in one round among the votes the decider received;
@@ -134,7 +134,10 @@ Proof.
   destruct (option_eq_dec_N (bhash x) (Some (fst b))) as [E|NE]; [exact E|]. exfalso.
   destruct S2 as (e2 & E2 & W2 & T2 & H2 & R2 & X2).
   assert (NE' : bhash (se_x e2) <> Some (fst b)) by (rewrite X2; exact NE).
-  destruct (lock_rule t1 t e2 k h r b rho S1 E2 W2 T2 H2 R2 ltac:(lia) NE') as (r'' & y & Hr'' & Hy & Qy).
+  assert (Lt12 : (t1 < t)%nat).
+  { apply (signing_order t1 t k h r rho (Some b) (se_x e2) S1); [|lia].
+    exists e2. repeat split; assumption. }
+  destruct (lock_rule t1 t e2 k h r b rho S1 E2 W2 T2 H2 R2 Lt12 ltac:(lia) NE') as (r'' & y & Hr'' & Hy & Qy).
   destruct (quorum_meets_Sc _ _ _ _ _ Qy) as (k' & Sk' & Ik').
   destruct (causal t e2 E2 _ _ _ _ _ Ik' (proj1 Sk')) as (t' & Lt & S').
   destruct (Z.eq_dec r'' rho) as [->|Hne].
